@@ -19,6 +19,14 @@ func intCell(v int64) *table.Cell {
 	return &table.Cell{L: l}
 }
 
+func floatCell(v float64) *table.Cell {
+	l, err := literal.DefaultBuilder().Build(literal.Float64, v)
+	if err != nil {
+		panic(err)
+	}
+	return &table.Cell{L: l}
+}
+
 func strCell(s string) *table.Cell { return &table.Cell{S: table.CellString(s)} }
 
 func mkTable(bs []string, rows []table.Row) *table.Table {
